@@ -42,12 +42,14 @@ Print Assumptions C05_canonical_preserves_cr_lf_tab.
    documents (SyncML DevInf / DM tree: generated with their own language, read in place).
    Hypotheses = the property's, as boolean predicates (node_ok_g: names are XML names, text and attribute values
    are XML characters, no attribute name twice — counting the generated xmlns —, no raw CR outside canonical
-   generation and inside CDATA since a reader normalises it, text not under a binary-flagged tag).
+   generation and inside CDATA since a reader normalises it; the content of a binary-flagged element is
+   arbitrary octets < 256 and is read back as their base64 text).
    The reader accepts the output, the DOCTYPE is the language's (doc_of l), the root element is the specified
    one: info_g, the exact infoset including the white space that indented generation writes between markup
    (and nowhere else).
-   PARTIAL: base64 of binary-flagged elements and raw CR in non-canonical modes / CDATA are not in the theorem
-   (corresponded by the check against pyexpat only). *)
+   PARTIAL only in this: a raw CR in non-canonical modes or inside CDATA (which an XML reader turns into LF —
+   "XML's own normalisation" of the property) is excluded by hypothesis and corresponded by the check against
+   pyexpat; processing-instruction nodes make the conversion fail (WBXML_ERROR_NOT_IMPLEMENTED). *)
 Theorem C05_read_enc_partial : forall l o nm attrs ch out,
   lang_ok l = true ->
   node_ok_g l o proot None (Elt nm attrs ch) = true ->
